@@ -275,21 +275,20 @@ fn depth_stats(lo: u32, hi: u32, s0: u32, e0: u32, s1: u32, e1: u32) -> (u64, u6
 // @functions bigbedwrite::process_val_zoom (coverage sweep + tiling into zoom records), two consecutive calls from the empty per-chromosome state, one zoom level
 // @bounds 2 entries with coordinates in 0..=7, start-sorted, any overlap relation; a third entry to the right (start 9) keeps the chromosome open; resolution 3; items_per_slot 8 (no mid-way flush)
 // @stubs tokio Handle::spawn -> counted/discarded; mpsc Sender -> always-ready log; Vec::push -> push within capacity (asserted); index_list::IndexList -> 4-slot sequence model by one source substitution of the `use` line; mpsc Sender::poll_ready/start_send -> always-ready log. (The await points inside the sweep loops make the coroutine lowering merge the nested loop heads, so the single unwinding bound of 24 is a budget for the TOTAL number of sweep/tiling iterations of one call; removing the awaits by substitution un-merges the loops and the nested unwinding ran out of memory)
-// @sub src/bbi/bigbedwrite.rs ::: use index_list::IndexList; ::: use crate::verif_support::ilist::IndexList;
+// @sub src/bbi/bigbedwrite.rs ::: use index_list::IndexList; ::: use crate::verif_support::ilist::IndexList; ||| src/bbi/bigbedwrite.rs ::: zoom_item.channel.send(handle).await.expect("Couln't send"); ::: crate::verif_support::env::direct_send(&mut zoom_item.channel, handle); ::: 2
 // @cut end-of-chromosome flush (see c08_bigbed_zoom_last); more than 2 entries; other resolutions; f32 narrowing (c09_zoom_section_layout)
 // @witness cover: partially overlapping entries; a gap longer than the resolution; nested entries
 #[kani::proof]
-#[kani::unwind(24)]
+#[kani::unwind(6)]
 #[kani::stub(tokio::runtime::Handle::spawn, fake_spawn_skip)]
-#[kani::stub(futures::channel::mpsc::Sender::poll_ready, fake_poll_ready)]
-#[kani::stub(futures::channel::mpsc::Sender::start_send, fake_start_send)]
 #[kani::stub(alloc::vec::Vec::push, push_within_capacity)]
 fn c08_bigbed_zoom_two_entries() {
     let size: u32 = 3;
     let (s0, e0, s1, e1): (u32, u32, u32, u32) = (kani::any(), kani::any(), kani::any(), kani::any());
     kani::assume(s0 <= e0 && s1 <= e1 && s0 <= s1 && e0 <= 7 && e1 <= 7);
     let mut env = Env::new();
-    let (ztx, _zrx) = futures::channel::mpsc::channel::<Msg>(4);
+    let (ztx, zrx) = futures::channel::mpsc::channel::<Msg>(4);
+    core::mem::forget(zrx);
     let mut zoom_items = Vec::with_capacity(1);
     zoom_items.push(ZoomItem { size, live_info: None, overlap: IndexList::new(), records: Vec::with_capacity(8), channel: ztx });
     let mut options = BBIWriteOptions::default();
